@@ -412,8 +412,9 @@ def r4(ck, F):
         if forms == want:
             tkb = [bb for bb, t in pb.calls() if t["callee"].get("method") == "take"]
             g, _ = guards_of(pb, tkb[0])
-            few = [(t, v) for t, v in g if t.startswith("(len(") and (" Lt arg2" in t or " Ge arg2" in t or " Le " in t or " Gt " in t)]
-            okc = any((" Lt arg2" in t and v == 0) or (" Ge arg2" in t and v != 0) for t, v in few)
+            from rulekit.query import relation_held
+            rels = [r for r in (relation_held(t, v) for t, v in g) if r]
+            okc = any(a == "arg2" and rel == "<=" and b.startswith("len(") for a, rel, b in rels)
             if okc:
                 ck.ok("C16.R4", kc, fn=pb.path)
             else:
